@@ -51,12 +51,12 @@ def sets_as_data(ctx):
     import re
     rng = ctx.rng
     cfgs, recs = [], []
-    n_cfg = 40 if ctx.quick else 400
+    n_cfg = 40 if ctx.quick else 150
     tries = 0
     while len(cfgs) < n_cfg and tries < 100000:
         tries += 1
         typ = rng.choice(list(WANTED))
-        m = rng.randint(2, 6 if ctx.quick else 8)
+        m = rng.randint(2, 6 if ctx.quick else 7)
         ab = rng.choice(("AC", "ACG", "ACGT", "ACN"))
         seq = "".join(rng.choice(ab) for _ in range(m))
         rate = rng.choice([r for r in G.RATES if r < 1])
